@@ -204,8 +204,10 @@ def Formula.rename (names : List String) (pre suf : String) : Formula α → For
 def renameName (names : List String) (pre suf : String) (n : String) : String :=
   if names.contains n then pre ++ n ++ suf else n
 
-/-- the code as it stands (before the repair proposed as F-C19-1) walks the expression graph
-along every path: a `Variable` object reachable along `visits` paths is renamed `visits` times -/
+/-- OLD shape of the code (before /repo 883442d, finding F-C19-1): the expression graph was walked
+along every path, so a `Variable` object reachable along `visits` paths was renamed `visits` times.
+Not a model of the current code (each distinct leaf is processed once); kept for the witness
+`C19.shared_object_renamed_twice`. -/
 def renameVisited (names : List String) (pre suf : String) : Nat → String → String
   | 0, n => n
   | k + 1, n => renameVisited names pre suf k (renameName names pre suf n)
